@@ -119,7 +119,9 @@ class C06(Prop):
                 exp_out.setdefault(g, []).append(oc)
             want = ";".join("%s:%s" % (g, "/".join(v)) for g, v in sorted(exp_out.items()))
             if o["finished"] != "1":
-                fails.append({"msg": "sched %s: schedule did not finish (deadlock): %s" % (idx, kv["events"][-120:])})
+                # (tie-level: the controller's picture of the lock comes from the yield rewriter; a lock operation it cannot see
+                # looks exactly like this)
+                fails.append({"msg": "sched %s: schedule did not finish (deadlock): %s" % (idx, kv["events"][-120:]), "tie": True})
                 continue
             if not common.outcomes_agree(o["outcomes"], want):
                 fails.append({"msg": "sched %s: outcomes %s, serial execution gives %s" % (idx, o["outcomes"], want), "events": kv["events"]})
